@@ -120,6 +120,39 @@ CLAIMED.update({
         design_ref='DESIGN.md 4 C19'),
 })
 
+CLAIMED.update({
+    'C03': dict(
+        engine='seqex',
+        technique='bounded-exhaustive enumeration of operator programs x inputs against a reference interpreter (explicit enumeration, no sampling)',
+        text='Every type-correct operator sequence up to length 3 (thorough 4) over 33 operator instances with boundary '
+             'parameters x 6 inputs (empty, singleton, 0..4, exception objects, nested lists) x 3 consumption modes runs the '
+             'real Stream and a lazy generator reference; shuffle is a permutation for 3 seeds; construction pulls nothing '
+             'and k outputs pull at most k + sum(slack) source elements for all chains of one-to-one operators up to length 3.',
+        note='pipelines with buffer/parmap run under the controlled scheduler with the default schedule (a hang is a deadlock '
+             'verdict); their schedules are C01/C05/C08. The program space beyond the length bound is not covered.',
+        design_ref='DESIGN.md 4 C03'),
+    'C15': dict(
+        engine='seqex',
+        technique='complete enumeration of exception classes x depths x hop sequences x nesting through real pickle round trips',
+        text='9 exception classes (builtin, OSError, UnicodeDecodeError, custom attribute, keyword-only __init__ with '
+             '__reduce__, BaseException subclass, __cause__, __context__) x raise depth 1/2/4 x 1-3 hops (4 thorough) x every '
+             'per-hop mode vector (forward / re-raise and wrap) x 5 nestings in EnsembleError: all cases enumerated, each really '
+             'raised, wrapped and pickled. Plus one conformance case per class through a real spawned child process.',
+        note='input alphabet is finite; other exception classes are outside it',
+        design_ref='DESIGN.md 4 C15'),
+    'C16': dict(
+        engine='seqex + schedex',
+        technique='complete enumeration of per-call virtual durations (all completion orders) on a virtual event loop, differential against the sync code; delay-bounded schedule exploration for AsyncServer',
+        text='async_fifo_stream and AsyncStream.parmap run for EVERY duration vector from {0,1,2,3}^n, n<=4, x failing position x '
+             'preprocessor-rejected position (incl. the first element) x capacity x return_x x return_exceptions on a virtual '
+             'event loop, compared with the real sync fifo_stream on the same inputs and with the reference list. '
+             'AsyncServer.call/stream is explored with the gather/worker threads under the controlled scheduler against the '
+             'same per-request reference that Server is checked against in C02/C04.',
+        note='inside one event loop the ready queue is FIFO and deterministic; the enumerated durations are the only source of '
+             'completion-order nondeterminism there. AsyncParmapper/ParmapperAsync (thread hybrids) are not in this check.',
+        design_ref='DESIGN.md 4 C16'),
+})
+
 PENDING_REASON = 'check not built yet in this session (planned, see DESIGN.md section 4); not claimed until it runs'
 
 
@@ -150,8 +183,12 @@ def main():
                    baseline_off_cmd='cd /repo && /venv/bin/python -m pytest -ra -q -p no:cacheprovider --timeout=900 --continue-on-collection-errors',
                    source_commits=[], add_only=True),
         engines=[
+            dict(name='seqex', path='mc/explore.py (kind=cases), checks/c03.py, checks/c15.py, checks/c16.py',
+                 serves_properties=[p for p, c in CLAIMED.items() if 'seqex' in c['engine']],
+                 kind_free_text='bounded-exhaustive enumeration of programs / inputs / duration vectors against a reference '
+                                'interpreter, cases spread over the worker pool'),
             dict(name='schedex', path='mc/sched.py, mc/explore.py',
-                 serves_properties=[p for p, c in CLAIMED.items() if c['engine'] == 'schedex'],
+                 serves_properties=[p for p, c in CLAIMED.items() if 'schedex' in c['engine']],
                  kind_free_text='hand-written stateless model checker for Python threads: controlled scheduler '
                                 '(sys.monitoring line points + simulated blocking primitives, virtual time), depth-first '
                                 'enumeration of all schedules within a delay bound, 16 worker processes'),
